@@ -37,7 +37,7 @@ def run(tier, seed):
     samples = []
 
     def bad(key, **kw):
-        if len(violations) < 20:
+        if len(violations) < 400:
             violations.append({"case_key": key, **kw})
 
     classes = [cpu.BufferByteArray, cpu.BufferNumpy]
@@ -199,5 +199,13 @@ def run(tier, seed):
                 "self-overlapping copies, whole-buffer comparison on poisoned buffers; typed views (10 dtypes x offsets incl. unaligned x shapes) "
                 "aliasing both ways; update_from_nplike for 10 dest dtypes x 15 source dtypes (incl. foreign byte order) x layouts "
                 "{C1d,C2d,F2d,strided,transposed 3-D,empty,list}; distinct by (primitive, class, capacity, offset, len, ...)",
-        "exhaustive": True, "violations": violations[:5], "samples": samples,
+        "exhaustive": True, "violations": _by_key(violations), "samples": samples,
     }
+
+
+def _by_key(violations, cap=12):
+    """one representative per case key (known findings must not crowd out new violations)"""
+    seen = {}
+    for v in violations:
+        seen.setdefault(v.get("case_key"), v)
+    return list(seen.values())[:cap]
